@@ -497,7 +497,24 @@ def modify_existing(doc: Dict[str, Any], rnd: random.Random) -> str:
     return "modify:none"
 
 
-SAFE_EDITS += [modify_existing, modify_existing, modify_existing]
+def add_many_of_the_same(doc: Dict[str, Any], rnd: random.Random) -> str:
+    """Scale: more than a hundred declarations that compete for the same generated name / numbering
+    (fallback paths after 'name2'..'name99' run out), or one declaration with hundreds of members."""
+    tag = _fresh(rnd, "")
+    kind = rnd.choice(["twin_literals", "twin_literals", "enum_members", "properties"])
+    if kind == "twin_literals":
+        pn = rnd.choice(NAME_POOL)
+        req = rnd.sample(NAME_POOL, rnd.randint(1, 2))
+        for i in range(rnd.choice([104, 130])):
+            doc["structures"].append({"name": f"SimMany{tag}N{i:03d}", "properties": [{"name": pn, "type": {"kind": "literal", "value": {"properties": [{"name": n, "type": _b("string")} for n in req]}}}]})
+    elif kind == "enum_members":
+        doc["enumerations"].append({"name": f"SimManyEnum{tag}", "type": _b("uinteger"), "values": [{"name": f"Member{i}", "value": i} for i in range(rnd.choice([300, 1200]))]})
+    else:
+        doc["structures"].append({"name": f"SimManyProps{tag}", "properties": [{"name": f"prop{i}", "type": _b("string"), **({"optional": True} if i % 3 else {})} for i in range(rnd.choice([150, 400]))]})
+    return f"add_many_of_the_same:{kind}"
+
+
+SAFE_EDITS += [modify_existing, modify_existing, modify_existing, add_many_of_the_same]
 
 
 def add_and_message(doc: Dict[str, Any], rnd: random.Random) -> str:
